@@ -268,8 +268,10 @@ theorem compressed_body (k : Codec) (r : Req) (c : Compression) (tr : Bool) (f :
           simp only [compressAppend, Except.ok.injEq] at hpl
           subst hpl
           have hr := laws.lz4_ratio body
-          have hg : ¬ body.length > (k.lz4 body).length * 255 + 64 := by omega
-          simp only [decompress, rdU32_be32, Nat.mod_eq_of_lt hbl, hg, if_false, laws.lz4_inv]
+          have hg : ¬ body.length > (k.lz4 body).length * Generated.decompressGuard_lz4_mul
+              + Generated.decompressGuard_lz4_add := by
+            simp only [Generated.decompressGuard_lz4_mul, Generated.decompressGuard_lz4_add]; omega
+          simp only [decompress, decompressE, rdU32_be32, Nat.mod_eq_of_lt hbl, hg, if_false, laws.lz4_inv]
         | snappy =>
           simp only [compressAppend] at hpl
           split at hpl
@@ -277,8 +279,10 @@ theorem compressed_body (k : Codec) (r : Req) (c : Compression) (tr : Bool) (f :
             cases hpl
             obtain ⟨h1, h2⟩ := laws.snap_inv body _ hcb
             have hr := laws.snap_ratio body _ hcb
-            have hg : ¬ body.length > pl.length * 64 + 64 := by omega
-            simp only [decompress, h2, hg, if_false, h1]
+            have hg : ¬ body.length > pl.length * Generated.decompressGuard_snappy_mul
+                + Generated.decompressGuard_snappy_add := by
+              simp only [Generated.decompressGuard_snappy_mul, Generated.decompressGuard_snappy_add]; omega
+            simp only [decompress, decompressE, h2, hg, if_false, h1]
           · cases hpl
       refine ⟨hdec, ?_⟩
       obtain ⟨_, hrd⟩ := rdBody_encodeBody hbody
@@ -286,9 +290,96 @@ theorem compressed_body (k : Codec) (r : Req) (c : Compression) (tr : Bool) (f :
       rw [List.append_nil] at hb
       simp [parseReqCompressed, hph, hdec, parseBody, hb]
 
-/-- Without `lz4_ratio` the driver's `decompress` would refuse its own frame: the guard is really there. -/
-example : decompress ⟨fun _ => [], fun _ n => some (List.replicate n 0), some, some, fun b => some b.length⟩ .lz4
-    (be32 65 ++ []) = none := by decide
+/-- **encode_injective_compressed.** The compressed counterpart of `encode_injective`: with the same negotiated
+compression, tracing flag and result-metadata-id mode, and codecs obeying `CodecLaws`, equal frames mean equal requests
+(bodies below 4 GiB). -/
+theorem encode_injective_compressed (k : Codec) (laws : CodecLaws k) (r₁ r₂ : Req) (c : Compression) (tr : Bool)
+    (f : List UInt8)
+    (h₁ : encodeReq k r₁ (some c) tr = .ok f) (h₂ : encodeReq k r₂ (some c) tr = .ok f)
+    (hm : hasMetadataId r₁ = hasMetadataId r₂) (hlen : f.length - 9 < 2 ^ 32)
+    (hb₁ : ∀ b, encodeBody r₁ = .ok b → b.length < 2 ^ 32) (hb₂ : ∀ b, encodeBody r₂ = .ok b → b.length < 2 ^ 32) :
+    r₁ = r₂ := by
+  obtain ⟨b₁, e₁, p₁⟩ := compressed_body k r₁ c tr f laws h₁ hlen
+  obtain ⟨b₂, e₂, p₂⟩ := compressed_body k r₂ c tr f laws h₂ hlen
+  have q₁ := (p₁ (hb₁ b₁ e₁)).2
+  have q₂ := (p₂ (hb₂ b₂ e₂)).2
+  rw [hm, q₂] at q₁
+  simp only [Option.some.injEq, FrameView.mk.injEq, true_and] at q₁
+  exact (view_inj (encodeBody_batchShape e₂) (encodeBody_batchShape e₁) q₁).symm
+
+/-- `set_stream` on a compressed frame: the parser (given the negotiated decompressor) reads the same request with the
+new stream id. -/
+theorem compressed_set_stream (k : Codec) (laws : CodecLaws k) (r : Req) (c : Compression) (tr : Bool) (f : List UInt8)
+    (s : Int16) (h : encodeReq k r (some c) tr = .ok f) (hlen : f.length - 9 < 2 ^ 32)
+    (hb : ∀ b, encodeBody r = .ok b → b.length < 2 ^ 32) :
+    parseReqCompressed (hasMetadataId r) (decompress k c) (setStream f s) =
+      some { compressed := true, tracing := tr, stream := s.toUInt16.toNat, req := view r } := by
+  obtain ⟨body, hbody, hp⟩ := compressed_body k r c tr f laws h hlen
+  obtain ⟨hdec, _⟩ := hp (hb body hbody)
+  simp only [encodeReq, hbody] at h
+  split at h
+  · cases h
+  · rename_i pl hpl
+    simp only [Except.ok.injEq] at h
+    subst h
+    have hl : (header (frameFlags (some c).isSome tr) (opcode r) pl.length ++ pl).length - 9 = pl.length := by
+      simp [header, be32]
+    have hd : (header (frameFlags (some c).isSome tr) (opcode r) pl.length ++ pl).drop 9 = pl := by
+      simp [header, be32]
+    rw [hl] at hlen
+    rw [hd] at hdec
+    obtain ⟨_, hrd⟩ := rdBody_encodeBody hbody
+    have hb' := hrd []
+    rw [List.append_nil] at hb'
+    have hs : s.toUInt16.toNat < 2 ^ 16 := s.toUInt16.toNat_lt
+    have hph := parseHeader_header_stream true tr r pl hlen s.toUInt16.toNat hs
+    have e : setStream (header (frameFlags (some c).isSome tr) (opcode r) pl.length ++ pl) s =
+        headerWithStream (frameFlags true tr) (opcode r) pl.length s.toUInt16.toNat ++ pl := by
+      simp [setStream, header, headerWithStream]
+    rw [e]
+    simp [parseReqCompressed, hph, hdec, parseBody, hb']
+
+/-- The guards of the model's `decompress` use the constants extracted from `frame::decompress` on every run; these
+are the values the LZ4 / Snappy format bounds call for (255 output bytes per LZ4 input byte, 64 per Snappy copy). -/
+theorem decompress_guard_constants :
+    Generated.decompressGuard_lz4_mul = 255 ∧ Generated.decompressGuard_lz4_add = 64 ∧
+    Generated.decompressGuard_snappy_mul = 64 ∧ Generated.decompressGuard_snappy_add = 64 := ⟨rfl, rfl, rfl, rfl⟩
+
+/-- **decompress_guards.** What `decompress` does with *any* body (foreign, truncated, hostile): an LZ4 body shorter
+than its prefix is refused; a declared size above `len·255 + 64` (LZ4, `len` = bytes after the prefix) or `len·64 + 64`
+(Snappy) is refused *without calling the decoder*; otherwise the answer is the block decoder's. -/
+theorem decompress_guards (k : Codec) (comp : List UInt8) :
+    (comp.length < 4 → decompressE k .lz4 comp = .error .prefix) ∧
+    (∀ n rest, rdU32 comp = some (n, rest) →
+      decompressE k .lz4 comp = if n > rest.length * 255 + 64 then .error .guard
+        else match k.unlz4 rest n with | some b => .ok b | none => .error .codec) ∧
+    (k.snappyLen comp = none → decompressE k .snappy comp = .error .header) ∧
+    (∀ n, k.snappyLen comp = some n →
+      decompressE k .snappy comp = if n > comp.length * 64 + 64 then .error .guard
+        else match k.unsnappy comp with | some b => .ok b | none => .error .codec) := by
+  refine ⟨?_, ?_, ?_, ?_⟩
+  · intro h
+    match comp, h with
+    | [], _ => rfl
+    | [_], _ => rfl
+    | [_, _], _ => rfl
+    | [_, _, _], _ => rfl
+    | _ :: _ :: _ :: _ :: _, h => simp at h; omega
+  · intro n rest h
+    simp only [decompressE, h, Generated.decompressGuard_lz4_mul, Generated.decompressGuard_lz4_add]
+    by_cases hg : n > rest.length * 255 + 64 <;> simp [hg]
+    cases k.unlz4 rest n <;> rfl
+  · intro h; simp only [decompressE, h]
+  · intro n h
+    simp only [decompressE, h, Generated.decompressGuard_snappy_mul, Generated.decompressGuard_snappy_add]
+    by_cases hg : n > comp.length * 64 + 64 <;> simp [hg]
+    cases k.unsnappy comp <;> rfl
+
+/-- Without `lz4_ratio` the driver's `decompress` would refuse its own frame: the guard is really there
+(declared size 65 with an empty block: 65 > 0·255 + 64). -/
+example : (match decompressE ⟨fun _ => [], fun _ _ => some [], some, some, fun b => some b.length⟩ .lz4 (be32 65 ++ []),
+      decompressE ⟨fun _ => [], fun _ _ => some [], some, some, fun b => some b.length⟩ .lz4 (be32 64 ++ []) with
+    | .error .guard, .ok [] => true | _, _ => false) = true := by decide
 
 /-! ### oversize inputs are refused, never truncated -/
 
